@@ -42,6 +42,8 @@ def plan(tier, seed):
     for N in range(4, 33, 4):
         for K in (64, 128, 192, 256):
             tasks.append({"kind": "v2", "N": N, "K": K})
+    for N, K in ((4, 64), (8, 128), (32, 256)):
+        tasks.append({"kind": "v2", "N": N, "K": K, "reorder": True})
     for N in range(1, 9):
         for K in range(8, 65, 8):
             for reorder in (False, True):
@@ -98,6 +100,8 @@ def _layout_task(task, out):
         out["violations"].append(violation(PID, dict(task, only=c), dict(fields, sub=sub), f"{sub}: {task['kind']} {N}x{K} reorder={reorder}: {msg}"))
 
     def pk(t):
+        if v2 and task.get("reorder"):
+            return AWQPackedTensor.pack(t, packing=packing, reorder=True)  # the flag is accepted for v2 too (it has no effect there)
         return AWQPackedTensor.pack(t, packing=packing, reorder=reorder) if not v2 else AWQPackedTensor.pack(t, packing=packing)
 
     # (i) position recovery
@@ -222,6 +226,20 @@ def _sweep_task(task, out):
             if not okk:
                 out["violations"].append(violation(PID, case, dict(fields, sub="not_inverse"), f"not_inverse: unpack(pack(M)) != M for width {K} in round {rnd} of a sweep over {len(widths)} widths ({task['layout']}, reorder={reorder})"))
             held.append((c, M, p))
+    # one layout unpacked many times (the same weight evaluated at every forward pass), including sizes between 2^15 and 2^16
+    for N, K in (((64, 768), (128, 384), (192, 256), (4, 64), (256, 256)) if v2 else ((2, 8), (64, 1000), (3, 16384 + 8))):
+        M = ((torch.arange(N * K, dtype=torch.int64) * 11) % 16).to(torch.uint8).reshape(N, K)
+        c = ["same", N, K]
+        try:
+            p = AWQPackedTensor.pack(M, packing=AWQPacking.V2) if v2 else AWQPackedTensor.pack(M, packing=AWQPacking.V1, reorder=reorder)
+            for i in range(task.get("same", 130)):
+                u = p.unpack()
+                out["calls"] += 1
+                if tuple(u.shape) != (N, K) or not torch.equal(u.to(torch.uint8), M):
+                    out["violations"].append(violation(PID, dict(task, only=c), dict(fields, sub="repeat_not_inverse"), f"repeat_not_inverse: unpack #{i + 1} of the same {N}x{K} packed tensor differs from its source ({task['layout']}, reorder={reorder})"))
+                    break
+        except Exception as e:  # noqa
+            out["violations"].append(violation(PID, dict(task, only=c), dict(fields, sub="raised"), f"raised: repeated unpack of {N}x{K}: {type(e).__name__}: {str(e)[:160]}"))
     for c, M, p in held:
         try:
             u = p.unpack()
